@@ -354,10 +354,17 @@ impl<'a, RK: RadioKind, C: Probe> Driver<'a, RK, C> {
             let mut sh = self.bus.borrow_mut();
             sh.chip.set_default_outcome(profile.events(self.var.is_126x(), continuous));
             sh.chip.set_next_packet(Some(vec![0x60, 1, 2, 3, 4, 5, 6]));
+            // a call that begins a new activity comes some time after the previous one: a chip left
+            // in duty-cycled reception is then in a sleep phase (calls that go on with the running
+            // reception - complete_rx, status reads - find it listening or just woken by its own IRQ)
+            if matches!(call, Call::Init | Call::SleepWarm | Call::SleepCold | Call::PrepTx | Call::PrepRxSingle | Call::PrepRxCont | Call::PrepRxDuty | Call::StartRx | Call::Rx | Call::RxSwitch | Call::Listen | Call::PrepCad | Call::SetSync) {
+                sh.chip.arm_duty_sleep(true);
+            }
             (sh.chip.transcript().len(), sh.chip.alarms().len(), sh.chip.op_starts().len(), sh.chip.mode())
         };
         let fault_before = self.bus.borrow().fault_hit.is_some();
         let res = self.exec_raw(call);
+        self.bus.borrow_mut().chip.arm_duty_sleep(false);
         let after = self.mode();
         let after_name = mode_name(after);
         let sh = self.bus.borrow();
